@@ -52,7 +52,7 @@ class Env:
 
 
 ATTR_KINDS = ["AttrInt64", "AttrFloat32", "AttrString", "AttrInt64s", "AttrFloat32s", "AttrStrings",
-              "AttrTensor", "AttrType", "AttrDtype"]
+              "AttrTensor", "AttrType", "AttrDtype", "AttrTensors", "AttrGraph"]
 
 
 def attr_value(env: Env, kind: str, rng):
@@ -75,6 +75,11 @@ def attr_value(env: Env, kind: str, rng):
         return env.ts.Tensor(np.float32, (rng.randrange(1, 4),))
     if kind == "AttrDtype":
         return rng.choice([np.int32, np.float64, np.bool_])
+    if kind == "AttrTensors":
+        return [np.arange(rng.randrange(1, 3), dtype=rng.choice([np.int64, np.float32])) for _ in range(rng.randrange(0, 3))]
+    if kind == "AttrGraph":
+        c = rng.randrange(1, 5)
+        return env.spox._graph.subgraph((), lambda: [env.op.const(np.array([float(c)], np.float32))])
     raise ValueError(kind)
 
 
@@ -102,6 +107,9 @@ def attr_repr(env: Env, ap) -> str:
         return "is:" + repr(list(v))
     if ap.type == AP.GRAPH:
         return "graph"
+    if ap.type == AP.TENSORS:
+        arrs = [onnx.numpy_helper.to_array(x) for x in v]
+        return "tensors:" + repr([(str(a.dtype), a.tolist()) for a in arrs])
     return "other"
 
 
@@ -128,6 +136,10 @@ def given_repr(env: Env, kind: str, v) -> str:
         return "type:" + tp.SerializeToString().hex()
     if kind == "AttrDtype":
         return "i:" + str(onnx.helper.np_dtype_to_tensor_dtype(np.dtype(v)))
+    if kind == "AttrTensors":
+        return "tensors:" + repr([(str(a.dtype), a.tolist()) for a in v])
+    if kind == "AttrGraph":
+        return "graph"
     return "other"
 
 
@@ -239,6 +251,12 @@ def make_class(env: Env, sig, th, vh):
     return type(sig["name"], (N.Node,), ns)
 
 
+class AttrRejected(Exception):
+    def __init__(self, kind, msg):
+        super().__init__(msg)
+        self.kind = kind
+
+
 def instantiate(env: Env, sig, cls, rng, given_inputs=None):
     """-> (node, names {id(var): name}, attr values {name: value|None}, caught warnings)"""
     np, ts = env.np, env.ts
@@ -270,7 +288,10 @@ def instantiate(env: Env, sig, cls, rng, given_inputs=None):
         if inst["attrs"][a["name"]]:
             v = attr_value(env, a["kind"], arng)
             avals[a["name"]] = v
-            akw[a["name"]] = getattr(env.A, a["kind"])(v, a["name"])
+            try:
+                akw[a["name"]] = getattr(env.A, a["kind"])(v, a["name"])
+            except Exception as e:  # noqa: BLE001
+                raise AttrRejected(a["kind"], f"{type(e).__name__}: {e}") from e
         else:
             avals[a["name"]] = None
             akw[a["name"]] = None
@@ -315,6 +336,7 @@ def conforms(env: Env, typ, val) -> bool:
 
 # ----------------------------------------------------------------------------- one case
 def emit_real(env: Env, node, names):
+    onnx = env.onnx
     scope = env.Scope()
     scope.node[node] = "n"
     for v in node.inputs:
@@ -323,7 +345,7 @@ def emit_real(env: Env, node, names):
     for i, v in enumerate(node.outputs):
         if v is not None:
             scope.var[v] = f"out_{i}"
-    return node.to_onnx(scope)
+    return node.to_onnx(scope, build_subgraph=lambda n, key, g: onnx.helper.make_graph([], key, [], []))
 
 
 def expected_slots(sig):
@@ -373,6 +395,9 @@ def run_case(ck, env: Env, sig, rng, reqs, metas, stats):
     case = {"kind": "node", "sig": strip(sig)}
     try:
         node, names, avals, caught = instantiate(env, sig, cls, rng)
+    except AttrRejected as e:
+        ck.failure(f"attrs:{e.kind}:rejected", f"{e.kind} does not accept a value of its documented Python type: {e}"[:300], case)
+        return
     except Exception as e:  # noqa: BLE001
         ck.failure("hooks:construct-raises" if sig["thook"] in ("absent", "empty") else "node:construct-raises",
                    f"constructing the operator raised {type(e).__name__}: {e}"[:300], case)
@@ -581,6 +606,8 @@ def compose_case(ck, env: Env, sig, position: str, rng, opset_reqs, v2=None):
             graph = env.results(**outs).with_arguments(*inputs.values())
             model = env.build(inputs, outs)
             real_req = sorted(graph._get_opset_req())
+    except AttrRejected:
+        return
     except Exception as e:  # noqa: BLE001
         ck.failure(f"build:{position}:raises", f"building a program with the custom operator in position {position} raised "
                    f"{type(e).__name__}: {str(e)[:200]}", case)
@@ -781,6 +808,17 @@ def run(ck: core.Check):
     for req, imports, position in opset_reqs:
         reqs.append({"kind": "opsets", "reqs": [[d, v] for d, v in req]})
         metas.append(("opsets", None, (imports, position)))
+    # max_opset_policy itself, on random requirement sets
+    import spox._schemas as S
+
+    pol_real = []
+    for _ in range(ck.pick(150, 1500)):
+        rs = sorted({(rng.choice(["", "ai.onnx", "ai.onnx.ml", "my.domain", "com.acme"]), rng.randrange(0, 24))
+                     for _ in range(rng.randrange(0, 9))})
+        pol_real.append(S.max_opset_policy(set(rs)))
+        reqs.append({"kind": "opsets", "reqs": [[d, v] for d, v in rs]})
+        metas.append(("opsets", None, (pol_real[-1], "random set")))
+        ck.count(("policy", tuple(rs)))
     # execution
     for position in ("top", "if", "twice"):
         for k in (2.5, -0.75):
